@@ -141,6 +141,15 @@ func zzH_C01_header() { zzC01Run(true) }
 // signers) under the protocol's own threshold.
 func zzH_C01_votes() { zzC01Run(false) }
 
+// zzH_C01_votes3: three votes over the two validators (a vote repeated next to its original or
+// with another vote in between); both validators eligible on the quick tier.
+func zzH_C01_votes3() {
+	zzC01Three = true
+	zzC01Run(false)
+}
+
+var zzC01Three bool
+
 func zzC01Run(whole bool) {
 	// look-back validator set: two validators, symbolic role / status / stake (descending order fixed)
 	var list []*state.Validator
@@ -150,7 +159,7 @@ func zzC01Run(whole bool) {
 		zzverif.Assume(role >= 1 && role <= 3)
 		status := zzverif.U8("val.status")
 		zzverif.Assume(status <= 1)
-		if i == 0 && !zzverif.Thorough() {
+		if (i == 0 || zzC01Three) && !zzverif.Thorough() {
 			zzverif.Assume(role == params.RoleChancellor && status == params.ValidatorOnline) // quick tier: the larger validator is an online chancellor
 		}
 		stake := new(big.Int).SetUint64(uint64(zzverif.U32("val.stake")))
@@ -182,6 +191,9 @@ func zzC01Run(whole bool) {
 		zzverif.Assume(zzC01HdrCon.SubUsers == 1)
 	}
 	nvotes := 2
+	if zzC01Three {
+		nvotes = 3
+	}
 	if whole {
 		nvotes = zzverif.Choose("votes", 2) // the whole header path carries at most one vote; zzH_C01_votes has two
 	}
